@@ -204,8 +204,8 @@ PROPS["C16"] = dict(
 )
 PROPS["C13"] = dict(
     title="primary keys identify items faithfully and are enforced",
-    quick=[G("M_KEYS", cfg="M_KEYS_S"), T("M_NUMKEY"), H(20)],
-    thorough=[G("M_KEYS", cfg="M_KEYS_S_t"), G("M_KEYS", cfg="M_KEYS_B"), T("M_NUMKEY"), H(300, 60)],
+    quick=[G("M_KEYS", cfg="M_KEYS_S"), T("M_NUMKEY"), T("M_HKEYS"), H(20)],
+    thorough=[G("M_KEYS", cfg="M_KEYS_S_t"), G("M_KEYS", cfg="M_KEYS_B"), T("M_NUMKEY"), T("M_HKEYS"), H(300, 60)],
     own=[parts("Outcome", "ErrClass", "Data", "Base", "Desc", "NoCrash")],
     design_ref="DESIGN.md 6 C13",
     level_text="Hash+range keys (string and binary) over byte alphabets built to collide under separator-joined encodings, stored at most 2 "
